@@ -1,8 +1,48 @@
 /-
-  C09 — theorems are being added (see DESIGN.md §7 C09)
+  C09 — a connection that saw a failure is never reused; fresh ones are vetted.
 -/
-import ZvtVerif.Client
+import ZvtVerif.Proofs.ClientLemmas
 namespace Zvt.C09
 open Zvt
+
+/-- **A failed attempt abandons its connection** — for every sequence, caller, terminal script and fault:
+an error item (transport error, undecodable or unexpected reply, NACK) or a time-out leaves no live
+connection behind. -/
+theorem failed_attempt_drops_connection {σ ρ : Type} (d : SeqDesc) (timeout : Nat) (step : σ → Item → Step σ ρ)
+    (fuel : Nat) (w : World) (c : ConnSt) (st : SeqSt) (s : σ)
+    (h : (runItems d timeout step fuel w c st s).2.2 = true) :
+    (runItems d timeout step fuel w c st s).2.1.conn = none :=
+  (runItems_conn d timeout step fuel w c st s).1 h
+
+/-- **An exchange that completes normally keeps the connection — the very same one.** -/
+theorem good_attempt_keeps_connection {σ ρ : Type} (d : SeqDesc) (timeout : Nat) (step : σ → Item → Step σ ρ)
+    (fuel : Nat) (w : World) (c : ConnSt) (st : SeqSt) (s : σ)
+    (h : (runItems d timeout step fuel w c st s).2.2 = false) :
+    ∃ c', (runItems d timeout step fuel w c st s).2.1.conn = some c' ∧ c'.id = c.id :=
+  (runItems_conn d timeout step fuel w c st s).2 h
+
+/-- the next call reuses a live connection without reconnecting: no handshake, no time. -/
+theorem live_connection_is_reused (cfg : Cfg) (w : World) (c : ConnSt) (h : w.conn = some c) :
+    ensureConn cfg w = (w, true) := by
+  unfold ensureConn; simp [h]
+
+/-- without a live connection the only way on is the handshake (`inner::connect`). -/
+theorem no_connection_means_handshake (cfg : Cfg) (w : World) (h : w.conn = none) :
+    ensureConn cfg w = connect cfg w := by
+  unfold ensureConn; simp [h]
+
+/-- inside an exchange the client never switches connections. -/
+theorem same_connection_within_exchange (d : SeqDesc) (w : World) (c : ConnSt) (st : SeqSt) :
+    (seqNext d w c st).2.2.1.id = c.id := (seqNext_conn d w c st).2
+
+/-- non-vacuity / vetting on a concrete run: a terminal reporting a different serial is registered with,
+asked for its identity — and then dropped without a single command. -/
+example :
+    let cfg : Cfg := { maxTx := 1, amount := 2500, currency := 978, password := 123456, readCardTimeout := 15,
+                       serial := [65, 66], terminalId := [49] }
+    let w : World := { serial := [0x58, 0x59, 0, 0, 0, 0, 0, 0], tid := [0x31, 0, 0, 0, 0, 0, 0, 0] }
+    (connect cfg w).2 = false ∧ (connect cfg w).1.conn.isNone = true ∧
+      ((connect cfg w).1.logs.map List.length) = [6] := by
+  decide +kernel
 
 end Zvt.C09
